@@ -251,6 +251,24 @@ def model_final(model_out, n):
     return "ret=%s runs=%s states=%s" % (verdict, ",".join(runs), states)
 
 
+def graph_cases(ctx, n):
+    """the same clauses on the execution graph alone (scripted local adapter: a 'run' consumes the next
+    outcome of the stream, a third of them failures): many more shapes than real processes allow,
+    compared state by state with Model/Exec.lean"""
+    import execprop
+    import execsim as E
+    out = []
+    for _ in range(n):
+        scn = E.gen_scenario(ctx.rng, maxn=8)
+        scn["dry"] = 0
+        scn["sched"] = [1 if ctx.rng.random() < 0.15 else 0 for _ in range(scn["n"])]
+        scn["subs"] = [0 if ctx.rng.random() < 0.35 else 1 for _ in range(ctx.rng.randint(5, 40))]
+        c = execprop.run_one(ctx, "C19", scn, rng=ctx.rng)
+        c.data["kind"] = "graph"
+        out.append(c)
+    return out
+
+
 def run(ctx, escalated=False):
     from common import driver
     quick = ctx.tier == "quick" and not escalated
@@ -266,5 +284,10 @@ def run(ctx, escalated=False):
             c.monitor.append(("model-prediction", "real run: %s | model: %s" % (c.impl_final, mf)))
         ctx.count("instances", c.n)
         ctx.count("exit:%s" % c.data["exit_code"])
+    gc = graph_cases(ctx, 800 if quick else 15000)
+    ctx.count("graph-scenarios", len(gc))
+    from corr import compare
+    diffs = compare(gc)
+    cases = cases + gc
     account(ctx, cases)
-    judge(ctx, cases, [], "cli-local-execution")
+    judge(ctx, cases, diffs, "cli-local-execution+execution-graph")
